@@ -15,6 +15,7 @@ pub fn replay_file(path : &str, tag : &str, serial_ref : bool, crash_last : bool
     let menu : Vec<Vec<XRule>> = head["menu"].as_array().unwrap().iter().map(|rs| rs.as_array().unwrap().iter().map(XRule::from_json).collect()).collect();
     let init : Vec<(String, String)> = head["init"].as_array().unwrap().iter().map(|p| (p[0].as_str().unwrap().to_string(), p[1].as_str().unwrap().to_string())).collect();
     let tick = head["clock"].as_str() == Some("tick");
+    let twin = head["twin"].as_bool().unwrap_or(false);
     let mut out = vec![];
     let mut n = 0; let mut notenabled = 0; let mut nsnaps = 0;
     for line in lines
@@ -22,7 +23,7 @@ pub fn replay_file(path : &str, tag : &str, serial_ref : bool, crash_last : bool
         if line.trim() == "" { continue; }
         let tr : Vec<Value> = serde_json::from_str(line).expect("behaviour json");
         n += 1;
-        let mut scn = Scn::new(&format!("{}.{}", tag, n), ord.clone(), tick, false, json!({"replay" : tag}));
+        let mut scn = Scn::new(&format!("{}.{}", tag, n), ord.clone(), tick, twin, json!({"replay" : tag}));
         scn.check_serial = serial_ref;
         scn.set_rules(&menu[0]);
         for (p, c) in &init { scn.edit(p, c); }
